@@ -75,6 +75,7 @@ type session struct {
 	trace   bool
 	budget  int64
 	noClear bool // the host handles an error without calling Clear()
+	dSrc    string // replay text of the D line when it differs from the text evaluated (a history)
 }
 
 var totalSteps, totalEvals, okEvals, errEvals, panicEvals, budgetEvals int
@@ -152,7 +153,11 @@ func (s *session) evalWith(src string, load func(env *zygo.Zlisp) error, tags []
 		if env.VerifMainFunc() == mainFn {
 			s.c.addStatic(env, mainFn, from, true, true)
 		}
-		emit("D "+fmt.Sprint(totalEvals), depths(env), src, append(tags, "obs:depths-after-success")...)
+		dsrc := src
+		if s.dSrc != "" {
+			dsrc = s.dSrc
+		}
+		emit("D "+fmt.Sprint(totalEvals), depths(env), dsrc, append(tags, "obs:depths-after-success")...)
 	case lib.OutPanic:
 		panicEvals++
 		if len(panicSamples) < 8 {
